@@ -525,6 +525,16 @@ func (s *SQLiteStore) streamBatch(
 		}
 	}
 
+	// rows.Next also returns false when iteration failed (driver error,
+	// cancelled context); without this check a failed batch would look like
+	// the end of the log
+	if err := rows.Err(); err != nil {
+		rows.Close() // Best effort close, iteration error takes precedence
+		*iterErr = fmt.Errorf("sqlite: iterate events: %w", err)
+		yield(nil, *iterErr)
+		return batchCount, lastPos, false
+	}
+
 	if err := rows.Close(); err != nil {
 		*iterErr = fmt.Errorf("sqlite: close rows: %w", err)
 		yield(nil, *iterErr)
